@@ -13,6 +13,6 @@ CFG = {
     ],
     "assumptions": ["periods are whole seconds below 2^32 for the sensitivity theorems (the sub-second part is not hashed: stated as a lemma)",
                     "node indices are pairwise distinct for order invariance (sort.Slice is not stable)"],
-    "level_text": "Theorems C17_chain_sensitive, C17_group_order, C17_group_sensitive, C17_paths_agree, C17_decode_rejects (and the stated limits C17_chain_pre_joint_collision, C17_chain_subsecond_not_hashed) hold for ALL infos/groups over a model whose preimages are folds over the write orders regenerated from Info.Hash, Group.Hash, Node.Hash, DistPublic.Hash on every run; the model's preimages are compared with the real digests (through a witness preimage hashed in Go) on generated groups/infos over all 5 schemes with single-field perturbations, node permutations and a malformed stream, and a monitor checks sensitivity, order invariance, the seven encoding paths and the JSON chain_hash check on the real code.",
+    "level_text": "Theorems C17_chain_sensitive, C17_group_order, C17_group_sensitive, C17_paths_agree, C17_decode_rejects (and the stated limits C17_chain_pre_joint_collision, C17_chain_subsecond_not_hashed) hold for ALL infos/groups over a model whose preimages are folds over the write orders regenerated from Info.Hash, Group.Hash, Node.Hash, DistPublic.Hash on every run; the model's preimages are compared with the real digests (through a witness preimage hashed in Go) on generated groups/infos over all 5 schemes with single-field perturbations, node permutations and a malformed stream, and a monitor checks sensitivity, order invariance, the seven encoding paths and the JSON chain_hash check on the real code, including documents in every mix of v1 / v2 key spellings (an accepted document's chain_hash must be the hash of the decoded info).",
     "level_note": "Kernel + vm_compute; no axioms. Hash functions idealised as injective; point encodings opaque; the Go compiler/runtime and the TOML/JSON/protobuf libraries are not verified.",
 }
